@@ -1,9 +1,19 @@
 (** Layer R proofs: C16, the leak conjunct -- examples: non-vacuity of [no_leak_settled], necessity of its hypotheses,
     and the witness that "no actor at all" is NOT sufficient for "no leak report" (finding EpilogueDepth). *)
 From Coq Require Import ZArith NArith List Bool.
-From Stk Require Import Lib.U R.Syntax R.Rt R.Mon R.C05Proofs R.F8Witness R.C16Leak R.C16Leak2 R.C16Leak3.
+From Stk Require Import Lib.U R.Syntax R.Rt R.Mon R.C16Proofs R.LinFlags R.LinOnce3 R.C05Proofs R.F8Witness R.C16Leak R.C16Leak2 R.C16Leak3.
 Import ListNotations.
 Local Open Scope Z_scope.
+
+(** C16 for the runs covered by [no_leak_settled] *)
+Theorem C16_ok_settled : forall (p : list top) (fuel : nat) (t : list ev),
+  exec DGlobal fuel p = Done t -> settled t = true -> no_actor t = true -> simple16 t = true -> C16_ok t = true.
+Proof.
+  intros p fuel t E ST NA SM. pose proof (no_leak_settled p fuel t E ST NA SM) as NL. rewrite (C16_split K16_lin).
+  rewrite (C16_flags_of_noleak _ p fuel t E NL), (C16_lin_proved _ p fuel t E), (C16_once_rest_proved _ p fuel t E).
+  reflexivity.
+Qed.
+Print Assumptions C16_ok_settled.
 
 (* a program without actors: deferred / lazy / idle closures, fixed and variable timers (one fires, one is deleted, one is
    dropped with the Stakker), nested closures, Rets with closure handlers (sent, dropped inside a queued closure, dropped
